@@ -128,16 +128,18 @@ def verdictFields (v : Verdict) (dom : Bool) : List (String × Json) :=
   [("spec_ok", !dom || v.ok), ("in_domain", dom),
    ("known", toJson (if v.unexplained then ([] : List String) else v.known)), ("why", v.why)]
 
-/-- The hypotheses of `ordered_disjoint_inline_partial` and `covers_lexeme_partial`
-    (HL/Props/C17.lean) evaluated on this lexer output: when they hold the theorems say the model's
-    tokens are ordered, disjoint, inside their lines, and every token that is not cut out of a
-    comment covers its lexeme (so `hyp_ok → spec_ok` for those on every case where model = impl).
-    `extents_ok`: the lexer's contract alone. -/
+/-- The lexer's contract (HL/Spec/SemTokSpec.lean) on this lexer output: the hypotheses of
+    `ordered_disjoint`, `encode_decode_tokenize` and `tag_tokens_placed` (HL/Props/C17.lean). -/
+def contractOk (d : LDoc) : Bool :=
+  extentsB d.text d.toks && cutsB d.text d.toks && (mappedBody d.toks).all (lineOk d.text)
+
+/-- ... together with the guards of `ordered_disjoint_inline_partial` and `covers_lexeme_partial`
+    (every piece ends inside its line; no comment value ends with a CR): when they hold the
+    theorems say the model's tokens are ordered, disjoint, inside their lines, and every token
+    that is not cut out of a comment covers its lexeme. -/
 def hypOk (d : LDoc) : Bool :=
-  let cls := d.cls
-  extentsB d.text d.toks && measB cls d.text d.toks && inlineB (lineLens16 d.text) cls d.text d.toks &&
-  (tokenizeSrc cls d.text d.toks).all fun (_, t) =>
-    (t.ty == .comment && !(extractTags cls d.text t).isEmpty) || (placed d.text t && !devCrComment t)
+  contractOk d && inlineB (lineLens16 d.text) d.cls d.text d.toks &&
+  (mappedBody d.toks).all fun t => !devCrComment t
 
 def tokens (j : Json) : Json :=
   let d := parseDoc (jget j "doc")
@@ -147,7 +149,7 @@ def tokens (j : Json) : Json :=
   let v := judge d impl
   let hyp := hypOk d
   Json.mkObj ([("model", dataJ data), ("nontrivial", dom && !impl.isEmpty && v.ok && hyp),
-    ("hyp_ok", hyp), ("extents_ok", extentsB d.text d.toks)] ++ verdictFields v dom)
+    ("hyp_ok", hyp), ("contract_ok", contractOk d)] ++ verdictFields v dom)
 
 def absJ (a : AbsTok) : Json := natArr [a.line, a.start, a.len, a.ty, a.mods]
 
